@@ -235,8 +235,26 @@ pub fn bfs(m: usize, cache: bool, max_depth: usize, state_cap: usize, rich: bool
 pub fn bfs_alpha(m: usize, cache: bool, max_depth: usize, state_cap: usize, alpha: u8, budget: &Budget, coll: &Collector, c15_too: bool) -> BfsResult {
     let rich = alpha == 1;
     let root = Node { b: Builder::new(vec![m], cache), avail: (0..2 + m).collect(), hist: vec![] };
-    let mut seen: HashSet<(Snapshot, Vec<usize>)> = HashSet::new();
-    seen.insert((root.b.snapshot(), root.avail.clone()));
+    // visited set: 128-bit fingerprints (two independently keyed SipHash values) of the exact
+    // canonical state (gate vector, negation pairs, handed-back wires), sharded for parallel insertion
+    const SHARDS: usize = 256;
+    fn fingerprint(s: &Snapshot, avail: &[usize]) -> (u64, u64) {
+        use std::hash::{Hash, Hasher};
+        let mut h1 = std::collections::hash_map::DefaultHasher::new();
+        0x9e37u64.hash(&mut h1);
+        s.hash(&mut h1);
+        avail.hash(&mut h1);
+        let mut h2 = std::collections::hash_map::DefaultHasher::new();
+        avail.hash(&mut h2);
+        s.hash(&mut h2);
+        0x51edu64.hash(&mut h2);
+        (h1.finish(), h2.finish())
+    }
+    let seen: Vec<Mutex<HashSet<(u64, u64)>>> = (0..SHARDS).map(|_| Mutex::new(HashSet::new())).collect();
+    {
+        let f = fingerprint(&root.b.snapshot(), &root.avail);
+        seen[(f.0 as usize) % SHARDS].lock().unwrap().insert(f);
+    }
     let mut frontier = vec![root];
     let mut res = BfsResult { states: 1, transitions: 0, depth_completed: 0, capped: false, builds: 0, added_hist: BTreeMap::new(), sample: vec![] };
     {
@@ -246,18 +264,28 @@ pub fn bfs_alpha(m: usize, cache: bool, max_depth: usize, state_cap: usize, alph
     }
     let n_assign = 1usize << m;
     let mask: u16 = if n_assign == 16 { 0xFFFF } else { (1u16 << n_assign) - 1 };
+    let n_states = std::sync::atomic::AtomicU64::new(1);
     for depth in 1..=max_depth {
         let next: Mutex<Vec<Node>> = Mutex::new(vec![]);
         let transitions = std::sync::atomic::AtomicU64::new(0);
+        let builds = std::sync::atomic::AtomicU64::new(0);
+        let new_states = std::sync::atomic::AtomicU64::new(0);
+        let over_cap = std::sync::atomic::AtomicBool::new(false);
         let hist: Mutex<BTreeMap<String, u64>> = Mutex::new(BTreeMap::new());
+        let sample: Mutex<Option<String>> = Mutex::new(None);
         let fr = &frontier;
+        let seen_ref = &seen;
         let done = par_range(fr.len(), budget, |i| {
+            if over_cap.load(std::sync::atomic::Ordering::Relaxed) {
+                return;
+            }
             let node = &fr[i];
             let snap = node.b.snapshot();
             let tt = truth_tables(&snap, m);
             let mut local_next = vec![];
             let mut local_hist: BTreeMap<String, u64> = BTreeMap::new();
             let mut t = 0u64;
+            let mut bl = 0u64;
             for req in if alpha == 2 { actions_core(&node.avail) } else { actions(&node.avail, m, rich) } {
                 t += 1;
                 let mut b = node.b.clone();
@@ -315,62 +343,62 @@ pub fn bfs_alpha(m: usize, cache: bool, max_depth: usize, state_cap: usize, alph
                     }
                 }
                 avail.sort_unstable();
+                let f = fingerprint(&snap2, &avail);
+                let is_new = seen_ref[(f.0 as usize) % SHARDS].lock().unwrap().insert(f);
+                if !is_new {
+                    continue;
+                }
                 let mut h = node.hist.clone();
                 h.push(req);
-                local_next.push((snap2, Node { b, avail, hist: h }));
+                let n = Node { b, avail, hist: h };
+                // every new state is checked at once; only states that still get expanded are kept
+                check_state(&n, m, cache, coll, &mut bl, c15_too);
+                new_states.fetch_add(1, std::sync::atomic::Ordering::Relaxed);
+                if n_states.fetch_add(1, std::sync::atomic::Ordering::Relaxed) + 1 > state_cap as u64 {
+                    over_cap.store(true, std::sync::atomic::Ordering::Relaxed);
+                }
+                if depth < max_depth {
+                    local_next.push(n);
+                } else if i == fr.len() / 2 {
+                    let mut sg = sample.lock().unwrap();
+                    if sg.is_none() {
+                        *sg = Some(format!("m={m} cache={cache} depth={depth}: {:?} -> avail {:?}, gates {:?}", n.hist, n.avail, n.b.snapshot().gates));
+                    }
+                }
             }
             transitions.fetch_add(t, std::sync::atomic::Ordering::Relaxed);
+            builds.fetch_add(bl, std::sync::atomic::Ordering::Relaxed);
             let mut hg = hist.lock().unwrap();
             for (k, v) in local_hist {
                 *hg.entry(k).or_insert(0) += v;
             }
             drop(hg);
-            let mut g = next.lock().unwrap();
-            for (_, n) in local_next {
-                g.push(n);
+            if !local_next.is_empty() {
+                next.lock().unwrap().append(&mut local_next);
             }
         });
         res.transitions += transitions.load(std::sync::atomic::Ordering::Relaxed);
+        res.builds += builds.load(std::sync::atomic::Ordering::Relaxed);
+        res.states += new_states.load(std::sync::atomic::Ordering::Relaxed);
         for (k, v) in hist.into_inner().unwrap() {
             *res.added_hist.entry(k).or_insert(0) += v;
         }
-        if done < frontier.len() {
-            res.capped = true;
-            break;
-        }
-        // dedup sequentially, then check new states in parallel
-        let mut new_nodes = vec![];
-        for n in next.into_inner().unwrap() {
-            let key = (n.b.snapshot(), n.avail.clone());
-            if seen.insert(key) {
-                new_nodes.push(n);
-            }
-            if seen.len() > state_cap {
-                res.capped = true;
-                break;
-            }
-        }
-        let builds = std::sync::atomic::AtomicU64::new(0);
-        let nn = &new_nodes;
-        let done2 = par_range(nn.len(), budget, |i| {
-            let mut b = 0;
-            check_state(&nn[i], m, cache, coll, &mut b, c15_too);
-            builds.fetch_add(b, std::sync::atomic::Ordering::Relaxed);
-        });
-        res.builds += builds.load(std::sync::atomic::Ordering::Relaxed);
-        res.states += new_nodes.len() as u64;
+        let new_nodes = next.into_inner().unwrap();
         if res.sample.len() < 3 {
-            if let Some(n) = new_nodes.get(new_nodes.len() / 2) {
+            if let Some(sm) = sample.into_inner().unwrap() {
+                res.sample.push(sm);
+            } else if let Some(n) = new_nodes.get(new_nodes.len() / 2) {
                 res.sample.push(format!("m={m} cache={cache} depth={depth}: {:?} -> avail {:?}, gates {:?}", n.hist, n.avail, n.b.snapshot().gates));
             }
         }
-        if res.capped || done2 < new_nodes.len() {
+        if done < frontier.len() || over_cap.load(std::sync::atomic::Ordering::Relaxed) {
             res.capped = true;
             break;
         }
         res.depth_completed = depth;
+        let closed = new_states.load(std::sync::atomic::Ordering::Relaxed) == 0;
         frontier = new_nodes;
-        if frontier.is_empty() {
+        if closed {
             // the reachable state space is closed: every deeper bound is covered too
             res.depth_completed = max_depth;
             break;
@@ -434,7 +462,7 @@ pub fn run_bfs_all(tier: Tier, budget: &Budget, coll: &Collector, c15_too: bool)
     let mut samples = vec![];
     let mut all_complete = true;
     for p in plans(tier) {
-        let r = bfs_alpha(p.m, p.cache, p.depth, tier.pick(1_500_000, 4_000_000), if p.core { 2 } else if p.rich { 1 } else { 0 }, budget, coll, c15_too);
+        let r = bfs_alpha(p.m, p.cache, p.depth, tier.pick(1_500_000, 20_000_000), if p.core { 2 } else if p.rich { 1 } else { 0 }, budget, coll, c15_too);
         states += r.states;
         transitions += r.transitions;
         if r.capped || r.depth_completed < p.depth {
